@@ -558,6 +558,12 @@ func (d *denum) subst(e ast.Expr, env map[types.Object]ast.Expr, depth int) ast.
 			return &ast.SliceExpr{X: a, Lbrack: x.Lbrack, Low: lo, High: hi, Max: x.Max, Slice3: x.Slice3, Rbrack: x.Rbrack}
 		}
 	case *ast.CallExpr:
+		// a call whose result was bound when the helper was followed into
+		if ob := d.callVars[x]; ob != nil {
+			if b, ok := env[ob]; ok && (callFree(b) || d.substCalls) {
+				return d.subst(b, env, depth+1)
+			}
+		}
 		changed := false
 		args := make([]ast.Expr, len(x.Args))
 		for i, a := range x.Args {
@@ -999,6 +1005,10 @@ func (d *denum) run(stmts []ast.Stmt, in []dstate) []dstate {
 			if s.Init != nil {
 				cur = d.run([]ast.Stmt{s.Init}, cur)
 			}
+			// the tag is the result of a helper: follow into it (switch e.layout() { … })
+			if tag, ok := ast.Unparen(s.Tag).(*ast.CallExpr); ok && s.Tag != nil && d.inlineVals {
+				cur = d.inlineCallsIn(&ast.ExprStmt{X: &ast.UnaryExpr{Op: token.ADD, X: tag}}, cur)
+			}
 			rest := cur
 			var after []dstate
 			var def *ast.CaseClause
@@ -1237,6 +1247,24 @@ func callFree(e ast.Expr) bool {
 
 // havoc: after a loop (or other statement) that is stepped over, the variables it assigns no longer have a known binding.
 func (d *denum) havoc(st ast.Stmt, in []dstate) []dstate {
+	// a loop that can return is not stepped over while a helper is being followed into: the paths that return from
+	// inside it would be lost, and the caller would see a helper that always takes its last return
+	if d.inlineDepth > 0 {
+		returns := false
+		ast.Inspect(st, func(n ast.Node) bool {
+			switch n.(type) {
+			case *ast.FuncLit:
+				return false
+			case *ast.ReturnStmt:
+				returns = true
+			}
+			return true
+		})
+		if returns {
+			d.undecided = "a loop that can return, inside a helper that is followed into"
+			return nil
+		}
+	}
 	assigned := map[types.Object]bool{}
 	ast.Inspect(st, func(n ast.Node) bool {
 		switch x := n.(type) {
